@@ -187,10 +187,12 @@ class C14(PropBase):
         "the C08 range-table model (module, memory and unloaded-module lookups) and its theorems",
         "membership in the ~6000-entry error-code enumerations is a parameter of the model; for the run it is computed by props/c14.py "
         "from minidump-common/src/errors/*.rs (regex over `Name = literal`, aborts on anything else)",
+        "translate/c14_names.py: value -> Debug name tables of the 40 small error-code enumerations (regex, aborts on unrecognised entries); "
+        "the model's reason_string mirrors Display for CrashReason over them and is compared with the real string for 27 of 33 variants",
         "extraction ExtrOcamlBasic; ocaml/c14/main.ml; harness/src/bin/c14.rs (minidump-synth dump writer, test-assembler)",
     ]
     assumptions = [
-        "the text of crash reasons (Display) is not modelled: compared only as a function of (variant, payload)",
+        "the text of crash reasons is predicted for 27 of 33 variants; WinError / NTSTATUS / in-page / EXC_RESOURCE / EXC_GUARD strings are compared only as a function of (variant, payload)",
         "parsing of /proc/self/status is exercised, not modelled (the model receives the parsed Pid)",
         "the stack memory chosen for a walk is observed through the first scanned frame on x86, amd64, arm (not iOS), arm64 and old arm64 (64-bit CPUs: 8-byte aligned sp only; 32-bit: any alignment); on other CPUs the model's choice is not compared",
         "frames beyond frame 0 (the unwinder) belong to C03-C07; unloaded-module attribution is compared for frame 0",
